@@ -46,3 +46,33 @@ fire("C61", "adam-timestep-advanced-inside-the-argument-loop",
      (_ADAM, "            if getattr(arg, \"requires_grad\", False):\n                self._update_accumulation(index, grad[trained_index])",
              "            if getattr(arg, \"requires_grad\", False):\n                self.accumulation[\"t\"] += 1\n                self._update_accumulation(index, grad[trained_index])"),
      "R-C61-tstep", "apply_grad")
+
+# --- R-C61-mtstate
+_QNG = "pennylane/optimize/qng.py"
+fire("C61", "qng-regularises-the-stored-tensor-on-every-step",
+     (_QNG, """            mt = metric_tensor_fn(*args, **kwargs)
+            if isinstance(mt, tuple):
+                self.metric_tensor = tuple(_reshape_and_regularize(_mt, self.lam) for _mt in mt)
+            else:
+                self.metric_tensor = _reshape_and_regularize(mt, self.lam)
+""", """            self.metric_tensor = metric_tensor_fn(*args, **kwargs)
+
+        mt = self.metric_tensor
+        if isinstance(mt, tuple):
+            self.metric_tensor = tuple(_reshape_and_regularize(_mt, self.lam) for _mt in mt)
+        else:
+            self.metric_tensor = _reshape_and_regularize(mt, self.lam)
+"""),
+     "R-C61-mtstate", "metric_tensor")
+silent("C61", "qng-tensor-computed-into-differently-named-local",
+       [(_QNG, """            mt = metric_tensor_fn(*args, **kwargs)
+            if isinstance(mt, tuple):
+                self.metric_tensor = tuple(_reshape_and_regularize(_mt, self.lam) for _mt in mt)
+            else:
+                self.metric_tensor = _reshape_and_regularize(mt, self.lam)
+""", """            raw = metric_tensor_fn(*args, **kwargs)
+            if not isinstance(raw, tuple):
+                self.metric_tensor = _reshape_and_regularize(raw, self.lam)
+            else:
+                self.metric_tensor = tuple(_reshape_and_regularize(part, self.lam) for part in raw)
+""")])
